@@ -318,7 +318,7 @@ def check_interleavings(run: Run, stream, xml):
 
 
 def check(run: Run, lean: dict) -> int:
-    n = 6 if run.tier == "quick" else 120
+    n = run.budget(6, 120)
     run.extra["rule"] = (
         "4 seed documents + generated ones (6 quick / 40 thorough) x 8 ambient settings (default, none, tag, text, comment, "
         "custom predicate, nested, hide-everything) x {serialize plain/pretty/wrapped, str(document), xpath, css_select, "
